@@ -189,6 +189,12 @@ def run(ctx):
         ctx.count("R4.signers")
         ctx.ob("R4", "returns-only-after-writing|%s" % q, fn_site(eng, sms).loc(), "%s %s" % (q, "returns normally only after write_metadata_to_file succeeded (%d returning paths)" % len(rets) if rets and not nowrite else "can return normally without having written its output (%d of %d returning paths): the command would report success although nothing was signed" % (len(nowrite), len(rets))), bool(rets) and not nowrite)
     ctx.floor("R4.signers", 2)
+    # ... and a write_metadata_to_file that returned normally has put the bytes under the name
+    # (C08-R1, re-evaluated here: a writer that swallows its own failure makes every signing
+    # sub-command report success with the file left unsigned)
+    from .c08 import writer_model
+
+    writer_model(ctx.sub("R4"), "C08-R1")
 
 
 def _library_would_reject(eng, st, Tm, Um, uty):
